@@ -683,7 +683,13 @@ class CallMixin:
         # exceptional outcomes
         exc_specs = [(lab, exc, when, post) for (lab, exc, when, post, _p) in c.exsures_] + \
                     [(None, exc, when, None) for (exc, when) in c.may_raise]
+        # one outcome per distinct (class, when); in it every `raises` clause whose class the exception is an instance of applies (the callee was
+        # verified against all of them: verify.py proves isinstance(exc, E_j) -> post_j for each j)
+        seen_specs = set()
         for lab, exc, when, post in exc_specs:
+            if (exc, when) in seen_specs:
+                continue
+            seen_specs.add((exc, when))
             s = old.clone()
             if when is not None:
                 w = self.spec_eval(when, s, env, module=cmod)
@@ -699,11 +705,19 @@ class CallMixin:
                 s.emit(tag, [self.spec_value(a, old, env, module=cmod) for a in eargs], site)
             if not getattr(c, "quiet", False):
                 s.emit(f"raise:{short}", [e], site)
-            if post is not None:
-                env2 = dict(env)
-                env2["exc"] = e
-                for part in self.caller_visible_parts(post):
-                    s.assume(self.spec_eval(part, s, env2, old=old, mode="hyp", module=cmod))
+            env2 = dict(env)
+            env2["exc"] = e
+            for (_l2, exc2, when2, post2, _p2) in c.exsures_:
+                if post2 is None:
+                    continue
+                if exc2 == exc and when2 == when:
+                    for part in self.caller_visible_parts(post2):
+                        s.assume(self.spec_eval(part, s, env2, old=old, mode="hyp", module=cmod))
+                elif when2 is None:
+                    is_e = self.schema.exc_isinstance(ct, exc2)
+                    if self.feasible(s, is_e):
+                        for part in self.caller_visible_parts(post2):
+                            s.assume(z3.Implies(is_e, self.spec_eval(part, s, env2, old=old, mode="hyp", module=cmod)))
             if not getattr(c, "quiet", False):
                 s.notes.append(f"{short}@{site} raises {exc}")
             outs.append(("exc", s, e))
@@ -1107,9 +1121,18 @@ class CallMixin:
         if not (isinstance(n, VStr) and z3.is_string_value(z3.simplify(n.t))):
             # dynamic attribute name: only on opaque objects
             f = z3.Function("obj_getattr_dyn", ty.IntS, ty.StrS, ty.IntS)
-            self.abstractions.add("getattr with a computed name is uninterpreted obj_getattr_dyn")
+            h = z3.Function("obj_hasattr_dyn", ty.IntS, ty.StrS, ty.BoolS)
+            self.abstractions.add("getattr with a computed name is uninterpreted obj_getattr_dyn / obj_hasattr_dyn")
             ov = to_obj_term(v)
-            return [self.val(st, VObj(f(ov, n.t)))]
+            out = []
+            for b, s in self.branch(st, h(ov, n.t)):
+                if b:
+                    out.append(self.val(s, VObj(f(ov, n.t))))
+                elif default is not None:
+                    out.append(self.val(s, default))
+                else:
+                    out.append(self.raise_new(s, "AttributeError"))
+            return out
         name = self._const_str(n)
         if isinstance(v, VObj):
             nid = z3.IntVal(const_id(f"attr:{name}"))
